@@ -48,6 +48,10 @@ MUST_FIRE = [
     ("icw-elementwise-relabel", ["C19"], ["R19.15"], P + "pool/utils.py",
      "            self.idx_ = np.concatenate([self.idx_[cur_idx], add_idx], axis=0)\n",
      "            self.y_[cur_idx] = self.y_[cur_idx]\n            self.idx_ = np.concatenate([self.idx_[cur_idx], add_idx], axis=0)\n"),
+    ("density-window-view", ["C13"], ["R13.7"], P + "stream/_density_uncertainty.py",
+     "            self.window_.append(np.array(x_cand))\n", "            self.window_.append(x_cand)\n"),
+    ("cognitive-window-view", ["C13"], ["R13.7"], P + "stream/_density_uncertainty.py",
+     "        self.cognition_window_.extend(np.array(candidates))\n", "        self.cognition_window_.extend(candidates)\n"),
     # ---- C01 / C02 / C18 selection
     ("sb-mask-deleted", ["C01", "C18"], ["R1.4", "R18.2"], SEL,
      "            utilities[tuple(best_indices[i])] = np.nan\n", ""),
